@@ -177,7 +177,8 @@ c_ts:
   if (~CountFirst) { phase := "pre"; goto last_load; }
   else { phase := "add"; eidx := mine[1]; ewk := "add"; goto win_load; };
 c_begun:
-  xl := 0;
+  xl := 0;                                 \* committedTxns appended, oracle mutex released, newCommitTs returns
+c_assigned:
   applied := applied \cup {mine[1]};       \* sendToWriteCh + req.Wait(): the writes are in the store
 c_done:
   kind := "Done"; tx := "done"; idxs := mine; k := 1; delta := -1; phase := "add";
@@ -508,13 +509,23 @@ c_ts(self) == /\ pc[self] = "c_ts"
 
 c_begun(self) == /\ pc[self] = "c_begun"
                  /\ xl' = 0
-                 /\ applied' = (applied \cup {mine[self][1]})
-                 /\ pc' = [pc EXCEPT ![self] = "c_done"]
+                 /\ pc' = [pc EXCEPT ![self] = "c_assigned"]
                  /\ UNCHANGED << scen, doneUntil, lastIndex, wins, curw, mu, 
                                  waiters, nextIdx, bret, dcall, examined, late, 
-                                 raced, waitBad, readBad, wref, ri, opi, kind, 
-                                 idxs, k, delta, phase, eidx, ewk, slcur, d, 
-                                 nxt, newBase, newSlots, mine, tx, rts >>
+                                 raced, waitBad, applied, readBad, wref, ri, 
+                                 opi, kind, idxs, k, delta, phase, eidx, ewk, 
+                                 slcur, d, nxt, newBase, newSlots, mine, tx, 
+                                 rts >>
+
+c_assigned(self) == /\ pc[self] = "c_assigned"
+                    /\ applied' = (applied \cup {mine[self][1]})
+                    /\ pc' = [pc EXCEPT ![self] = "c_done"]
+                    /\ UNCHANGED << scen, doneUntil, lastIndex, wins, curw, mu, 
+                                    waiters, xl, nextIdx, bret, dcall, 
+                                    examined, late, raced, waitBad, readBad, 
+                                    wref, ri, opi, kind, idxs, k, delta, phase, 
+                                    eidx, ewk, slcur, d, nxt, newBase, 
+                                    newSlots, mine, tx, rts >>
 
 c_done(self) == /\ pc[self] = "c_done"
                 /\ kind' = [kind EXCEPT ![self] = "Done"]
@@ -893,12 +904,12 @@ wait_park(self) == /\ pc[self] = "wait_park"
 
 thread(self) == op(self) \/ xlock(self) \/ r_next(self) \/ r_last(self)
                    \/ r_begun(self) \/ c_lock(self) \/ c_ts(self)
-                   \/ c_begun(self) \/ c_done(self) \/ last_load(self)
-                   \/ last_cas(self) \/ win_load(self) \/ win_lock(self)
-                   \/ rb_done(self) \/ rb_copy(self) \/ rb_store(self)
-                   \/ add_slot(self) \/ adv_done(self) \/ adv_last(self)
-                   \/ adv_win(self) \/ adv_slot(self) \/ adv_cas(self)
-                   \/ notify_lock(self) \/ wait_fast(self)
+                   \/ c_begun(self) \/ c_assigned(self) \/ c_done(self)
+                   \/ last_load(self) \/ last_cas(self) \/ win_load(self)
+                   \/ win_lock(self) \/ rb_done(self) \/ rb_copy(self)
+                   \/ rb_store(self) \/ add_slot(self) \/ adv_done(self)
+                   \/ adv_last(self) \/ adv_win(self) \/ adv_slot(self)
+                   \/ adv_cas(self) \/ notify_lock(self) \/ wait_fast(self)
                    \/ wait_lock(self) \/ wait_park(self)
 
 (* Allow infinite stuttering to prevent deadlock on termination. *)
@@ -920,7 +931,7 @@ Termination == <>(\A self \in ProcSet: pc[self] = "Done")
 Labels == <<"op", "xlock", "last_load", "last_cas", "win_load", "win_lock", "rb_done", "rb_copy", "rb_store",
             "add_slot", "adv_done", "adv_last", "adv_win", "adv_slot", "adv_cas", "notify_lock",
             "wait_fast", "wait_lock", "wait_park",
-            "r_next", "r_last", "r_begun", "c_lock", "c_ts", "c_begun", "c_done">>
+            "r_next", "r_last", "r_begun", "c_lock", "c_ts", "c_begun", "c_done", "c_assigned">>
 LabelIdx(l) == CHOOSE i \in 1..Len(Labels) : Labels[i] = l
 Blocked(t) == \/ pc[t] = "Done"
               \/ pc[t] \in {"win_lock", "notify_lock", "wait_lock"} /\ mu # 0
@@ -981,7 +992,9 @@ ScenFree2 == {
   [w |-> 2, progs |-> << <<B(1), D(1)>>, <<B(2), D(2)>> >>],
   [w |-> 2, progs |-> << <<B(1), D(1)>>, <<B(3), D(3)>> >>],
   [w |-> 2, progs |-> << <<BM(<<1, 2>>), DM(<<1, 2>>)>>, <<B(3), Wt(2)>> >>],
-  [w |-> 2, progs |-> << <<B(1), Wt(1)>>, <<B(2), D(2), Wt(2)>> >>] }
+  [w |-> 2, progs |-> << <<B(1), Wt(1)>>, <<B(2), D(2), Wt(2)>> >>],
+  [w |-> 2, progs |-> << <<B(3)>>, <<B(4)>> >>],
+  [w |-> 2, progs |-> << <<B(3), D(3)>>, <<B(1), B(4)>> >>] }
 ScenFree3 == {
   [w |-> 2, progs |-> << <<B(1), D(1)>>, <<B(2), D(2)>>, <<B(3), D(3)>> >>],
   [w |-> 2, progs |-> << <<B(1), D(1)>>, <<B(3), D(3)>>, <<Wt(1), Wt(3)>> >>] }
@@ -996,7 +1009,8 @@ ScenWitness2Quick == {
   [w |-> 2, progs |-> << <<BN(1), DMine, BN(1), DMine>>, <<BN(1), DMine>> >>],
   [w |-> 2, progs |-> << <<BN(1), DMine>>, <<BN(3), DMine>> >>],
   [w |-> 2, progs |-> << <<B(1), D(1)>>, <<B(2), D(2)>> >>],
-  [w |-> 2, progs |-> << <<B(1), D(1)>>, <<B(3), D(3)>> >>] }
+  [w |-> 2, progs |-> << <<B(1), D(1)>>, <<B(3), D(3)>> >>],
+  [w |-> 2, progs |-> << <<B(3)>>, <<B(4)>> >>] }        \* both Begins beyond the window: concurrent ensureWindow / rebuild
 ScenWitness3 == {
   [w |-> 2, progs |-> << <<B(1), D(1)>>, <<B(2)>>, <<B(3)>> >>],
   [w |-> 2, progs |-> << <<BN(1), DMine>>, <<BN(1)>>, <<BN(1)>> >>],
